@@ -90,6 +90,13 @@ def gen_inputs(ctx):
             continue
         o = B(il.to_bytes(32, "big") + bytes(32))
         out.append(("CkdPub", {"par": pub_parent(rng, k), "i": idx4(7), "prf": {"all": o}}, ("pub-infinity", kc)))
+        # IL relative to the parent scalar: IL = k_par (the child is the DOUBLE of the parent key: same x coordinate of
+        # IL*G and K_par, a perfectly valid child), k_par +- 1, n - k_par + 1
+        for il3, c3 in ((k % N, "IL=k_par (doubling)"), ((k + 1) % N, "IL=k_par+1"), ((k - 1) % N, "IL=k_par-1"), ((N - k + 1) % N, "IL=n-k_par+1")):
+            if il3 and (il3 + k) % N:
+                o3 = B(il3.to_bytes(32, "big") + bytes(range(32)))
+                out.append(("CkdPub", {"par": pub_parent(rng, k), "i": idx4(9), "prf": {"all": o3}}, ("pub-il-relative", c3)))
+                out.append(("CkdPriv", {"par": parent(rng, k), "i": idx4(9), "prf": {"all": o3}}, ("priv-il-relative", c3)))
         il2 = (N + 5 - k) % N
         if il2:
             o2 = B(il2.to_bytes(32, "big") + bytes(32))
